@@ -185,7 +185,7 @@ Proof. intros D []; cbn; tauto. Qed.
 Lemma pfeq_all_eq : forall a b, (forall f, pfeq f a b) -> a = b.
 Proof.
   intros [] [] H.
-  pose proof (H FTokens); pose proof (H FPos); pose proof (H FCur); pose proof (H FDepth); pose proof (H FCtx);
+  pose proof (H FTokens); pose proof (H FPos); pose proof (H FCur); pose proof (H FDepth); pose proof (H FCtx); pose proof (H FCancel);
   pose proof (H FPositions); pose proof (H FStrict); pose proof (H FDialect). cbn in *. congruence.
 Qed.
 
@@ -203,11 +203,11 @@ Section ParserInst.
   Lemma apply_opts_frame : forall opts s,
     let s' := fold_left apply_opt opts s in
     p_tokens s' = p_tokens s /\ p_pos s' = p_pos s /\ p_cur s' = p_cur s /\ p_depth s' = p_depth s /\
-    p_ctx s' = p_ctx s /\ p_positions s' = p_positions s.
+    p_ctx s' = p_ctx s /\ p_cancel s' = p_cancel s /\ p_positions s' = p_positions s.
   Proof.
     induction opts as [|o r IH]; intros s; cbn.
     - repeat split.
-    - specialize (IH (apply_opt s o)). cbn in IH. destruct IH as (A & B & C & E & F & G).
+    - specialize (IH (apply_opt s o)). cbn in IH. destruct IH as (A & B & C & E & F & F' & G).
       destruct o; cbn in *; repeat split; assumption.
   Qed.
 
@@ -279,8 +279,8 @@ Section ParserInst.
         try (destruct (ctx_done0 (i_ctx x)); [reflexivity|]);
         try (match goal with |- pfeq _ (fst (let (_, _) := ?a in _)) _ => destruct a end);
         try reflexivity;
-        try (cbn [fst]; pose proof (apply_opts_frame (i_opts x) (mkP p_tokens p_pos p_cur p_depth p_ctx p_positions p_strict p_dialect)) as Hf;
-             cbn in Hf; destruct Hf as (A & B & C & E' & F & G); cbn; assumption).
+        try (cbn [fst]; pose proof (apply_opts_frame (i_opts x) (mkP p_tokens p_pos p_cur p_depth p_ctx p_cancel p_positions p_strict p_dialect)) as Hf;
+             cbn in Hf; destruct Hf as (A & B & C & E' & F & F' & G); cbn; assumption).
     - (* Zero *)
       intros o x s f E.
       destruct o, f; cbn in E; try discriminate; reflexivity.
